@@ -115,18 +115,18 @@ func c15Run(cs c15Case, path string) c15Obs {
 		}
 	case "ttl":
 		if lockish {
-			r := kv.Lock(key, 5*time.Second, 0)
+			r := kv.Lock(key, 5200*time.Millisecond, 0)
 			tok = r.Token
 		} else {
-			setup.Put(key, val, simcluster.PutOpt{PX: 5 * time.Second})
+			setup.Put(key, val, simcluster.PutOpt{PX: 5200 * time.Millisecond})
 		}
 		simcluster.Tick(time.Second)
 	case "expired":
 		if lockish {
-			r := kv.Lock(key, time.Second, 0)
+			r := kv.Lock(key, 1100*time.Millisecond, 0)
 			tok = r.Token
 		} else {
-			setup.Put(key, val, simcluster.PutOpt{PX: time.Second})
+			setup.Put(key, val, simcluster.PutOpt{PX: 1100 * time.Millisecond})
 		}
 		simcluster.Tick(2 * time.Second)
 	}
@@ -145,11 +145,11 @@ func c15Run(cs c15Case, path string) c15Obs {
 			case "XX":
 				o.XX = true
 			case "EX":
-				o.EX = 3 * time.Second
+				o.EX = 3300 * time.Millisecond
 			case "PX":
 				o.PX = 2500 * time.Millisecond
 			case "EXAT":
-				o.EXAT = (now + 4*time.Second).Truncate(time.Second)
+				o.EXAT = (now + 4300*time.Millisecond).Truncate(time.Millisecond)
 			case "PXAT":
 				o.PXAT = (now + 3500*time.Millisecond).Truncate(time.Millisecond)
 			}
@@ -168,7 +168,7 @@ func c15Run(cs c15Case, path string) c15Obs {
 	case "lock":
 		r = kv.Lock(key, 0, 0)
 	case "lockt":
-		r = kv.Lock(key, 2*time.Second, 0)
+		r = kv.Lock(key, 2200*time.Millisecond, 0)
 	case "unlock":
 		r = kv.Unlock(key, tok)
 	case "lease":
